@@ -77,3 +77,23 @@ func tier(t string, quick, thorough int) int {
 	}
 	return quick
 }
+
+// leakedHandles lists what the process still holds below prefix: open file descriptors (/proc/self/fd) and
+// memory mappings (/proc/self/maps). Called when a case has closed every database it opened.
+func leakedHandles(prefix string) (fds, maps []string) {
+	if es, err := ioutil.ReadDir("/proc/self/fd"); err == nil {
+		for _, e := range es {
+			if t, err := os.Readlink("/proc/self/fd/" + e.Name()); err == nil && strings.HasPrefix(t, prefix) {
+				fds = append(fds, t)
+			}
+		}
+	}
+	if b, err := ioutil.ReadFile("/proc/self/maps"); err == nil {
+		for _, ln := range strings.Split(string(b), "\n") {
+			if i := strings.Index(ln, prefix); i >= 0 {
+				maps = append(maps, ln[i:])
+			}
+		}
+	}
+	return
+}
